@@ -142,6 +142,10 @@ def worker_main(prop, name, tier, outfile):
     except Exception:
         pass
     sys.setrecursionlimit(100000)
+    try:
+        sys.set_int_max_str_digits(0)
+    except Exception:
+        pass
     t0 = time.time()
     from . import core
     if os.environ.get("SYMX_DEADLINE"):
